@@ -346,6 +346,9 @@ func transformerFor[T any](key int, get func(T) rec) fpgo.TransformerFunctor[T, 
 func buildDescriptors[T any](spec []keySpec, get func(T) rec) fpgo.SortDescriptorsBuilder[T] {
 	b := fpgo.NewSortDescriptorsBuilder[T]()
 	for _, ks := range spec {
+		// a sibling stack is derived from the same prefix AFTER the real one (see below): a builder is a
+		// value, deriving another stack from a shared prefix must not change a stack derived earlier
+		prev := b
 		switch ks.Mode {
 		case 0:
 			b = b.ThenWithTransformerFunctor(transformerFor(ks.Key, get), !ks.Desc)
@@ -356,6 +359,9 @@ func buildDescriptors[T any](spec []keySpec, get func(T) rec) fpgo.SortDescripto
 		default:
 			b = b.ThenWith(fpgo.NewFieldSortDescriptor[T](fieldNames[ks.Key], !ks.Desc))
 		}
+		// decoy sibling: other key, opposite direction, derived from the shared prefix
+		_ = prev.ThenWithFieldName(fieldNames[(ks.Key+1)%3], ks.Desc)
+		_ = prev.ThenWithTransformerFunctor(transformerFor((ks.Key+2)%3, get), ks.Desc)
 	}
 	return b
 }
@@ -589,6 +595,76 @@ func propDescriptor(t *rapid.T) {
 			t.Skip("known finding")
 		}
 	}
+}
+
+// rec2 has the same field NAMES as rec at different positions (and an extra leading field):
+// a field-name based descriptor must resolve the name per record type.
+type rec2 struct {
+	Pad int
+	K3  fpgo.ComparableOrdered[string]
+	ID  int
+	K1  fpgo.ComparableOrdered[int]
+	K2  fpgo.ComparableString
+}
+
+func propSecondType(t *rapid.T) {
+	c := sortCase{Entry: "ToSortedList", Items: genItems(t, 20), Spec: genSpec(t, 3, true)}
+	for i := range c.Spec {
+		c.Spec[i].Mode = 1 + 2*(c.Spec[i].Mode%2) // field-name based modes only (1 or 3)
+	}
+	in := c.recs()
+	// sort the first type too, so that both types are live in the same process
+	if o := runDescriptor(c); o.failKey != "" {
+		if vlib.Fail(t, o.failKey, "%s", o.failMsg) {
+			t.Skip("known finding")
+		}
+	}
+	in2 := make([]rec2, len(in))
+	for i, r := range in {
+		in2[i] = rec2{Pad: 1000 - i, K3: r.K3, ID: r.ID, K1: r.K1, K2: r.K2}
+	}
+	b := buildDescriptors(c.Spec, func(r rec2) rec { return rec{K1: r.K1, K2: r.K2, K3: r.K3, ID: r.ID} })
+	var got []rec2
+	p, stack := vlib.Try(func() { got = b.ToSortedList(in2...) })
+	vlib.S().Eval("descriptor-second-type")
+	desc := fmt.Sprintf("second-type|%s|n=%d", c.specString(true), len(in))
+	if len(in) >= 2 {
+		vlib.S().NonTrivial("descriptor-second-type", desc)
+	}
+	key, msg := "", ""
+	switch {
+	case p != nil:
+		key, msg = "C19/descriptor/second-type-panic", fmt.Sprintf("sorting a second record type by [%s] panicked: %v\n%s", c.specString(true), p, firstFrames(stack))
+	case len(got) != len(in2):
+		key, msg = "C19/descriptor/second-type", fmt.Sprintf("result has %d elements, input %d", len(got), len(in2))
+	default:
+		seen := map[int]bool{}
+		for i, g := range got {
+			if seen[g.ID] || g.ID < 0 || g.ID >= len(in) {
+				key, msg = "C19/descriptor/second-type", "result is not a permutation of the input"
+				break
+			}
+			seen[g.ID] = true
+			if i+1 < len(got) {
+				a := rec{K1: g.K1, K2: g.K2, K3: g.K3, ID: g.ID}
+				n := got[i+1]
+				bb := rec{K1: n.K1, K2: n.K2, K3: n.K3, ID: n.ID}
+				if lexCompare(c.Spec, a, bb) > 0 {
+					key, msg = "C19/descriptor/second-type", fmt.Sprintf("a second record type (same field names at other positions) sorted by [%s]: %v comes before %v", c.specString(true), a, bb)
+					break
+				}
+			}
+		}
+	}
+	if key != "" {
+		if vlib.Fail(t, key, "%s", msg) {
+			t.Skip("known finding")
+		}
+	}
+}
+
+func TestDescriptorSecondType(t *testing.T) {
+	vlib.Check(t, "descriptor-second-type", 3000, 30000, propSecondType)
 }
 
 func TestComparatorSorts(t *testing.T) {
